@@ -94,6 +94,21 @@ func checkC06(c *Ctx) {
 				r.Check(gPort, "C06.1", "ParseOrResolveBlocklisted: success only with a valid 16-bit port", ret.Pos(), fnName(f), "dominated by ParseUint(port,10,16) err == nil", "the returned port was not validated as a 16-bit number")
 				gNil := guarded(f, ret, Atom{"(" + orderEq(addr, "nil") + ")", false}) && guarded(f, ret, Atom{"(" + orderEq(pathOf(res)+"#1", "nil") + ")", true})
 				r.Check(gNil, "C06.1", "ParseOrResolveBlocklisted: success only if the resolution succeeded", ret.Pos(), fnName(f), "err == nil && addr != nil", "a result is built although the resolution failed")
+				// ... and produced an address: the resolver answers an empty host ("":port, "[]:port") with an IPAddr
+				// whose IP is nil, which no subnet list contains and whose literal is "" - the result ":port" is dialed
+				// as the local host
+				ipPath := addr + ".IP"
+				gIP := guardedM(f, ret, func(cnd string, pol bool) bool {
+					switch cnd {
+					case "(" + orderEq("nil", ipPath) + ")", "(0 == len(" + ipPath + "))", "(len(" + ipPath + ") < 1)", "(" + orderEq(`""`, host) + ")", "(0 == len(" + host + "))", "(len(" + host + ") < 1)":
+						return !pol
+					case "(0 < len(" + ipPath + "))", "(0 < len(" + host + "))":
+						return pol
+					}
+					return false
+				})
+				r.Check(gIP, "C06.1", "ParseOrResolveBlocklisted: success only if the resolution produced an address", ret.Pos(), fnName(f), "dominated by addr.IP != nil (or host != \"\")",
+					"an empty host (\":80\", \"[]:80\") resolves without error to an address with a nil IP: no subnet list contains it, its literal is empty, and the guard returns \":80\", which net.Dial connects to the local host - a loopback destination is admitted although loopback is blocklisted")
 			})
 			if nRet == 0 {
 				r.Unk("C06.1", "ParseOrResolveBlocklisted: non-empty return", f.Pos(), fnName(f), "none found")
